@@ -13,11 +13,15 @@ import random as _random
 import socket as _socket
 import sys
 import time as _time
+import re
 import types
 
 from .loop import SimLoop, SimStepCap, UNIT, T0, WALL0  # noqa: F401
 from .net import SimNet, SocketModuleProxy
 from .tape import Tapes, EventLog
+
+
+_ADDR = re.compile(r"0x[0-9a-fA-F]+")
 
 
 class ModProxy(types.ModuleType):
@@ -150,9 +154,12 @@ class SimEnv:
 
     def _on_loop_error(self, loop, context):
         exc = context.get("exception")
-        self.loop_errors.append((context.get("message"), type(exc).__name__ if exc else None))
+        msg = context.get("message") or ""
+        # asyncio formats callbacks with argument reprs (heap addresses): keep the stable part
+        stable = _ADDR.sub("0x?", msg.split("(")[0])[:80]
+        self.loop_errors.append((msg, type(exc).__name__ if exc else None))
         if self.alive:
-            self.log.ev("loop_error", context.get("message"), type(exc).__name__ if exc else None)
+            self.log.ev("loop_error", stable, type(exc).__name__ if exc else None)
 
     def __exit__(self, *a):
         self.alive = False
